@@ -1,4 +1,5 @@
 import Gallia.Proofs.Lemmas.Config
+import Gallia.Proofs.Lemmas.ConfigFile
 import Gallia.Gen.C18Options
 /-
   C18 — Settings resolve CLI > env > file > default; a stored config re-creates the run.
@@ -402,6 +403,237 @@ example : WellTyped { kind := .autoInt, optional := true } .none := rfl
 example : load { kind := .ranges2d } (dump (.map [(1, some [2, 3]), (-4, none)])) = .ok (.map [(1, some [2, 3]), (-4, none)]) := by
   rfl
 
+/-! ### the stored configuration as a whole -/
+
+/-- a configuration that fits a schema: the same names in the same order, every value of its field's type -/
+def Conforms : List (Str × Field × Option Val) → List (Str × Val) → Prop
+  | [], [] => True
+  | (n, f, _) :: s, (n', v) :: c => n = n' ∧ WellTyped f v ∧ Conforms s c
+  | _, _ => False
+
+/-- the configuration stored in META.json / the database, fed back field by field, is the configuration: for every
+    schema (any number of fields of any kinds, names pairwise different) and every configuration that fits it -/
+theorem reload_store (schema : List (Str × Field × Option Val)) (cfg : List (Str × Val))
+    (hnd : (schema.map (·.1)).Nodup) (hc : Conforms schema cfg) :
+    reload schema (store cfg) = .ok cfg := by
+  -- generalise over fields already passed: their stored entries sit in front and carry other names
+  suffices h : ∀ (pre : List (Str × Val)), (∀ e ∈ pre, e.1 ∉ schema.map (·.1)) →
+      reload schema (store (pre ++ cfg)) = .ok cfg from h [] (by simp)
+  induction schema generalizing cfg with
+  | nil =>
+    cases cfg with
+    | nil => intro pre _; rfl
+    | cons _ _ => exact absurd hc (by simp [Conforms])
+  | cons e schema ih =>
+    obtain ⟨n, f, d⟩ := e
+    cases cfg with
+    | nil => exact absurd hc (by simp [Conforms])
+    | cons e' cfg =>
+      obtain ⟨n', v⟩ := e'
+      obtain ⟨rfl, hw, hrest⟩ := hc
+      simp only [List.map_cons, List.nodup_cons] at hnd
+      intro pre hpre
+      have hfind : lookupJ n (store (pre ++ (n, v) :: cfg)) = some (dump v) := by
+        induction pre with
+        | nil => simp [store, lookupJ]
+        | cons p pre ihp =>
+          obtain ⟨x, xv⟩ := p
+          have hx : x ≠ n := by
+            intro hxn
+            exact hpre (x, xv) (by simp) (by simp [hxn])
+          rw [List.cons_append, lookupJ_store_skip n x xv _ hx]
+          exact ihp (fun e he => hpre e (by simp [he]))
+      have hnext := ih cfg hnd.2 hrest (pre ++ [(n, v)]) (by
+        intro e he
+        rcases List.mem_append.mp he with he | he
+        · intro hmem
+          exact hpre e he (by simp [hmem])
+        · simp at he; subst he; exact hnd.1)
+      rw [List.append_assoc] at hnext
+      simp only [List.singleton_append] at hnext
+      simp only [reload, hfind, load_dump f v hw, hnext]
+
+/-- `reload_store` is not vacuous: a configuration with an enum stored by value, a list of DDDI definitions, an
+    optional field holding `None`, a dictionary and the enum list of the vecu's randomness parameters -/
+example : reload
+    [(['s'], { kind := .enum [(['R'], 34)] }, none), (['t'], { kind := .tuples 3 }, none), (['n'], { kind := .autoInt, optional := true }, none),
+     (['p'], { kind := .dict, optional := true }, none), (['m'], { kind := .enums [(['A'], 16), (['B'], 39)] }, none)]
+    (store [(['s'], .int 34), (['t'], .tuples [[4660, 1, 2], [1, 2, 3]]), (['n'], .none),
+            (['p'], .dict (.cons ['a'] (.leaf (.int 1)) .nil)), (['m'], .ints [16, 39])])
+    = .ok [(['s'], .int 34), (['t'], .tuples [[4660, 1, 2], [1, 2, 3]]), (['n'], .none),
+           (['p'], .dict (.cons ['a'] (.leaf (.int 1)) .nil)), (['m'], .ints [16, 39])] := by rfl
+
+/-! ### every line of a rejection message -/
+
+/-- the first line of the message is the one `effective` reports -/
+theorem blamedAll_head (k : Kind) (r : Raw) (extra : Option (Source × Raw)) :
+    (blamedAll k r extra).head? = some (blame (reported k r) extra) := by
+  have key : ∀ (bad : Atom → Bool) (xs : List Atom),
+      ((match xs.filter bad with | [] => [r] | bs => bs.map Raw.atom).map (fun i => blame i extra)).head?
+        = some (blame (match xs.find? bad with | some a => Raw.atom a | none => r) extra) := by
+    intro bad xs
+    induction xs with
+    | nil => rfl
+    | cons a xs ih =>
+      by_cases ha : bad a = true
+      · simp [List.filter_cons, ha]
+      · have ha' : bad a = false := by simpa using ha
+        simpa [List.filter_cons, ha'] using ih
+  unfold blamedAll reportedAll reported
+  cases k <;> cases r <;> first | rfl | exact key _ _
+
+/-! ### the file layer -/
+
+/-- an option without a config section has no gallia.toml key: the file cannot configure it, whatever it holds -/
+theorem unsectioned_not_in_file (doc : Tree) (name : Str) : fileValue doc none name = none := rfl
+
+theorem configKey_none_iff (sect : Option Str) (name : Str) : configKey sect name = none ↔ sect = none := by
+  cases sect with
+  | none => simp [configKey]
+  | some s => simp [configKey]; split <;> simp
+
+/-- the key of an option is looked up at the parts of its section followed by its name -/
+theorem configKey_path (s name : Str) (hs : s ≠ []) (hname : ∀ c ∈ name, (c == '.') = false) (doc : Tree) :
+    fileValue doc (some s) name = getPath doc (splitOn '.' s ++ [name]) := by
+  have : s.isEmpty = false := by cases s <;> simp_all
+  simp only [fileValue, configKey, this, Bool.false_eq_true, if_false, Option.bind_some, getValue]
+  rw [splitOn_append_sep, splitOn_no_sep '.' name hname]
+  cases h : splitOn '.' s with
+  | nil => exact absurd h (splitOn_ne_nil _ _)
+  | cons x xs => rfl
+
+/-- `--template` written out and parsed back: every key the registry lists with a default is read back by
+    `Config.get_value` as that default - `false`, `0` and `""` included -/
+theorem template_roundtrip (reg : List (List Str × Option Tree)) (h : prefixFree (templateKeys reg) = true)
+    (k : List Str) (v : Tree) (hk : (k, some v) ∈ reg) : getPath (templateDoc reg) k = some v := by
+  have hkne : k ≠ [] := prefixFree_mem h (List.mem_map_of_mem (f := (·.1)) hk)
+  rw [getPath_eq_lookup _ _ hkne, templateDoc_eq]
+  exact lookup_templateDoc reg .nil h k v hk
+
+/-- a key the template only mentions in a comment (no default) is not set by it -/
+theorem template_commented_absent (reg : List (List Str × Option Tree)) (h : prefixFree (templateKeys reg) = true)
+    (k : List Str) (hk : (k, none) ∈ reg) : getPath (templateDoc reg) k = none := by
+  have hkne : k ≠ [] := prefixFree_mem h (List.mem_map_of_mem (f := (·.1)) hk)
+  rw [getPath_eq_lookup _ _ hkne, templateDoc_eq, lookup_templateDoc_commented reg .nil h k hk]
+  exact lookup_nil_tbl k
+
+example : getValue (templateDoc [([['g'], ['v']], some (.leaf (.int 0))), ([['g'], ['h'], ['x']], some (.leaf (.bool false))),
+    ([['g'], ['d']], none)]) ['g', '.', 'h', '.', 'x'] = some (.leaf (.bool false)) := by decide +kernel
+
+/-- a value that is present is returned whatever it is (`false` is not "absent"), a path through a value is absent -/
+example : getValue (.cons ['a'] (.cons ['b'] (.leaf (.bool false)) .nil) .nil) ['a', '.', 'b'] = some (.leaf (.bool false)) ∧
+    getValue (.cons ['a'] (.cons ['b'] (.leaf (.bool false)) .nil) .nil) ['a', '.', 'b', '.', 'c'] = none := by decide +kernel
+
+/-! ### which gallia.toml is picked -/
+
+/-- GALLIA_CONFIG decides alone: an existing file is taken, a missing one is an error - whatever the directories hold -/
+theorem env_file_decides (w : World) :
+    (w.envFile = .existing → search w = .file .env) ∧ (w.envFile = .missing → search w = .notFound) := by
+  constructor <;> intro h <;> simp [search, h]
+
+/-- without GALLIA_CONFIG the file picked is the first candidate - working directory, git root, user config directory,
+    extra paths, in this order - that holds a gallia.toml -/
+theorem discovery_order (w : World) (h : w.envFile = .unset) (p : Place) :
+    search w = .file p ↔
+      ∃ pre post, candidates w = pre ++ p :: post ∧ holds w p = true ∧ ∀ q ∈ pre, holds w q = false := by
+  simp only [search, h]
+  constructor
+  · intro hs
+    split at hs
+    · rename_i x hx
+      injection hs with hs; subst hs
+      exact find_split _ _ _ hx
+    · cases hs
+  · rintro ⟨pre, post, e, hp, hpre⟩
+    rw [e, find_first _ pre post p hp hpre]
+
+theorem discovery_nothing (w : World) (h : w.envFile = .unset) :
+    search w = .nothing ↔ ∀ q ∈ candidates w, holds w q = false := by
+  simp only [search, h]
+  constructor
+  · intro hs
+    split at hs
+    · cases hs
+    · rename_i hn
+      intro q hq
+      have := List.find?_eq_none.mp hn q hq
+      simpa using this
+  · intro hall
+    have : (candidates w).find? (holds w) = none := List.find?_eq_none.mpr (fun q hq => by simp [hall q hq])
+    simp [this]
+
+/-- the choice depends on nothing after the chosen candidate: two worlds with the same candidate list that agree on
+    which of the candidates up to and including the chosen one hold a file pick the same file -/
+theorem discovery_independent_of_later (w w2 : World) (h : w.envFile = .unset) (h2 : w2.envFile = .unset)
+    (pre post post2 : List Place) (p : Place)
+    (hc : candidates w = pre ++ p :: post) (hc2 : candidates w2 = pre ++ p :: post2)
+    (hp : holds w p = true) (hpre : ∀ q ∈ pre, holds w q = false)
+    (hagree : ∀ q ∈ pre ++ [p], holds w2 q = holds w q) :
+    search w = .file p ∧ search w2 = .file p := by
+  constructor
+  · exact (discovery_order w h p).mpr ⟨pre, post, hc, hp, hpre⟩
+  · refine (discovery_order w2 h2 p).mpr ⟨pre, post2, hc2, ?_, ?_⟩
+    · rw [hagree p (by simp), hp]
+    · intro q hq; rw [hagree q (by simp [hq]), hpre q hq]
+
+/-- only the candidates matter: directories between the working directory and the git root, and above it, are not
+    searched - two worlds with the same candidates that agree on them find the same file -/
+theorem discovery_only_candidates (w w2 : World) (he : w.envFile = w2.envFile) (hc : candidates w = candidates w2)
+    (hagree : ∀ q ∈ candidates w, holds w q = holds w2 q) : search w = search w2 := by
+  unfold search
+  rw [← he, ← hc, find_congr _ _ _ hagree]
+
+/-- the git root is the nearest directory, from the working directory upwards, that holds a `.git` -/
+theorem git_root_nearest (w : World) (n : Nat) (h : gitRoot w = some n) :
+    (∃ d, w.chain[n]? = some d ∧ d.hasGit = true) ∧ ∀ j, j < n → ∀ d, w.chain[j]? = some d → d.hasGit = false := by
+  obtain ⟨i, e, hd, hlt⟩ := gitRootFrom_spec w.chain 0 n h
+  have : n = i := by omega
+  subst this
+  exact ⟨hd, hlt⟩
+
+/-- the hypotheses are satisfiable: a gallia.toml in the parent directory is not found from a sub-directory unless
+    the parent is the git root; with the `.git` there it is found, and a file in the user directory loses against it -/
+example : search { chain := [⟨false, false⟩, ⟨false, true⟩], envFile := .unset, xdgSet := false, xdgToml := false, homeToml := true, extra := [] }
+    = .file .user := by decide +kernel
+example : search { chain := [⟨false, false⟩, ⟨true, true⟩], envFile := .unset, xdgSet := false, xdgToml := false, homeToml := true, extra := [] }
+    = .file (.up 1) := by decide +kernel
+
+/-! ### one option through all layers -/
+
+/-- an option without a config section resolves as if gallia.toml were empty -/
+theorem unsectioned_ignores_file (o : OptDecl) (h : o.sect = none) (cli : Option Raw) (environ : Str → Option Str) (doc : Tree)
+    (d : Option Val) : resolveOption o cli environ doc d = resolveOption o cli environ .nil d := by
+  simp [resolveOption, h, fileValue, configKey]
+
+/-- an option declared without gallia's `Field()` is configured by the command line and its default only -/
+theorem unconfigurable_cli_or_default (o : OptDecl) (h : o.configurable = false) (cli : Option Raw) (environ : Str → Option Str)
+    (doc : Tree) (d : Option Val) : resolveOption o cli environ doc d = effective o.field cli none none d := by
+  simp [resolveOption, h]
+
+/-- CLI > env > file > default through the layers: the environment variable `GALLIA_<NAME>` beats the key
+    `<section>.<name>` of gallia.toml, the command line beats both -/
+theorem layers_precedence (o : OptDecl) (hc : o.configurable = true) (hpos : o.field.positional = false)
+    (s name : Str) (hs : o.sect = some s) (hn : o.name = name) (environ : Str → Option Str) (doc : Tree) (d : Option Val)
+    (r : Raw) (v : Val) (hok : provided o.field r = .ok v) :
+    resolveOption o (some r) environ doc d = .ok .cli v ∧
+    (∀ t, environ (envName name) = some t → r = .atom (.str t) → resolveOption o none environ doc d = .ok .env v) ∧
+    (∀ tr, environ (envName name) = none → fileValue doc (some s) name = some tr → r = rawOfTree tr →
+      resolveOption o none environ doc d = .ok .file v) := by
+  subst hn
+  refine ⟨?_, ?_, ?_⟩
+  · simp [resolveOption, effective, argValue, hok]
+  · intro t ht hr
+    subst hr
+    simp [resolveOption, hc, ht, effective, argValue, extraDefault, offered, hpos, hok]
+  · intro tr he hf hr
+    subst hr
+    simp [resolveOption, hc, he, hs, hf, effective, argValue, extraDefault, offered, hpos, hok]
+
+/-- `depth = 7` under `[gallia.scanner]` is the effective value when neither `--depth` nor GALLIA_DEPTH is given -/
+example : resolveOption { name := "depth".toList, field := { kind := .autoInt }, sect := some "gallia.scanner".toList, configurable := true }
+    none (fun _ => none) (.cons "gallia".toList (.cons "scanner".toList (.cons "depth".toList (.leaf (.int 7)) .nil) .nil) .nil) (some (.int 4))
+    = .ok .file (.int 7) := by decide +kernel
+
 /-! ### facts about the option table regenerated from the live command tree -/
 
 open Gallia.Gen.C18Options in
@@ -428,6 +660,38 @@ open Gallia.Gen.C18Options in
 /-- ... and every key the template prints belongs to some command's option -/
 theorem template_keys_all_used :
     ∀ k, k < nTemplateKeys → rows.any (fun r => r.key == some k) = true := by decide +kernel
+
+open Gallia.Gen.C18Options in
+/-- every option of every command has a field kind the model covers: an annotation the model lacks shows up in the
+    regenerated table as `unmodelled` and breaks this obligation -/
+theorem all_kinds_modelled : rows.all (fun r => r.tag != .unmodelled) = true := by decide +kernel
+
+/-- ... and every tag of the table stands for a kind of the model -/
+theorem tags_have_kinds (t : KindTag) (h : t ≠ .unmodelled) : ∃ k : Kind, k.tag = t := by
+  cases t <;> first
+    | exact absurd rfl h
+    | exact ⟨.bool, rfl⟩ | exact ⟨.int, rfl⟩ | exact ⟨.autoInt, rfl⟩ | exact ⟨.hexInt, rfl⟩ | exact ⟨.text, rfl⟩
+    | exact ⟨.opaque, rfl⟩ | exact ⟨.hexBytes, rfl⟩ | exact ⟨.ranges, rfl⟩ | exact ⟨.ranges2d, rfl⟩ | exact ⟨.enum [], rfl⟩
+    | exact ⟨.choice [], rfl⟩ | exact ⟨.autoInts, rfl⟩ | exact ⟨.tuples 0, rfl⟩ | exact ⟨.enums [], rfl⟩ | exact ⟨.dict, rfl⟩
+
+open Gallia.Gen.C18Options in
+/-- the kinds whose lists are validated element by element (where a rejection reports the element, not the list) are
+    not read from gallia.toml by any shipped command: for the file the whole-value attribution of `invalid_names_source` applies -/
+theorem elementwise_kinds_not_in_file :
+    rows.all (fun r => !(r.tag == .autoInts || r.tag == .enums || r.tag == .tuples) || r.key.isNone) = true := by decide +kernel
+
+open Gallia.Gen.C18Options in
+/-- no positional argument has a gallia.toml key (the file could not provide it anyway: `positional_cli_only`) -/
+theorem positional_not_in_file : rows.all (fun r => !r.positional || r.key.isNone) = true := by decide +kernel
+
+open Gallia.Gen.C18Options in
+/-- the keys of the live registry are prefix free: `template_roundtrip` applies to the template gallia really prints -/
+theorem registry_prefix_free : prefixFree (registry.map (·.1)) = true := by decide +kernel
+
+open Gallia.Gen.C18Options in
+/-- no two options of one command share a name (`reload_store` looks the stored values up by name) -/
+theorem option_names_unique_per_command :
+    ∀ c, c < commands.length → ((rows.filter (·.cmd == c)).map (·.opt)).Nodup := by decide +kernel
 
 open Gallia.Gen.C18Options in
 /-- every row refers to a command of the tree -/
